@@ -8,7 +8,8 @@
    crates/osutils/src/file.rs:delete_any (rmdir for directories, unlink else).
 
    A transform application is a program [prog]:
-     - a journaled phase (renames through _FileMover.rename, chmods),
+     - a journaled phase (renames through _FileMover.rename, then the
+       executable bits with their own journal of old modes),
        whose handler on any exception is _FileMover.rollback;
      - the deferred deletions (_FileMover.apply_deletions);
      - the metadata update (apply_inventory_delta / _apply_index_changes);
@@ -145,8 +146,7 @@ Definition wfb (f : fs) : bool :=
 (* operations of the journaled phase *)
 Inductive pop :=
 | PRename (skip_enoent : bool) (from to : path)   (* mover.rename / mover.pre_delete;
-                                                     skip = wrapped in "except TransformRenameFailed: if errno != ENOENT: raise" *)
-| PChmod (p : path) (x : bool).                   (* _set_executability *)
+                                                     skip = wrapped in "except TransformRenameFailed: if errno != ENOENT: raise" *).
 
 Definition journal := list (path * path).          (* _FileMover.past_renames, most recent first *)
 
@@ -173,10 +173,10 @@ Definition tick (k : option nat) : bool * option nat :=
 
 Definition is_enoent (e : errno) : bool := match e with ENOENT => true | _ => false end.
 
-(* the try-block of apply: _apply_removals + _apply_insertions.
+(* the renames of the try-block of apply: _apply_removals + the first loop of _apply_insertions.
    Returns (fs, journal, dirty, trace (reversed), exception).
-   dirty = some rename replaced an existing target, or some chmod was performed:
-   the two effects a reverse replay of the journal cannot undo. *)
+   dirty = some rename replaced an existing target: the one effect a reverse replay of the
+   journal cannot undo. *)
 Fixpoint run_phase (ops : list pop) (k : option nat) (e : errno)
          (f : fs) (j : journal) (dirty : bool) (tr : list ev)
   : fs * journal * bool * list ev * option exc :=
@@ -192,16 +192,46 @@ Fixpoint run_phase (ops : list pop) (k : option nat) (e : errno)
           then run_phase ops' k' e f j dirty (EvRename from to c (Some er) :: tr)
           else (f, j, dirty, EvRename from to c (Some er) :: tr, Some (XRename er))
       end
-  | PChmod p x :: ops' =>
+  end.
+
+(* the second loop of _apply_insertions (since 54fc383): _set_executability for every path of
+   new_paths AFTER all renames, remembering (abspath, old mode) in old_modes (most recent first) *)
+Definition mjournal := list (path * bool).
+Definition exec_of (n : node) : bool := match n with File _ x => x | _ => false end.
+
+Fixpoint run_chmods (cs : list (path * bool)) (k : option nat) (e : errno)
+         (f : fs) (mj : mjournal) (tr : list ev)
+  : fs * mjournal * list ev * option exc :=
+  match cs with
+  | [] => (f, mj, tr, None)
+  | (p, x) :: cs' =>
       match lookup f p with
-      | None => (f, j, dirty, tr, Some (XOs ENOENT))     (* os.stat raises first *)
-      | Some _ =>
+      | None => (f, mj, tr, Some (XOs ENOENT))            (* os.stat raises first *)
+      | Some n =>
           let '(fire, k') := tick k in
           match (if fire then Err e else chmod p x f) with
-          | Ok f' => run_phase ops' k' e f' j true (EvChmod p x None :: tr)
-          | Err er => (f, j, dirty, EvChmod p x (Some er) :: tr, Some (XOs er))
+          | Ok f' => run_chmods cs' k' e f' ((p, exec_of n) :: mj) (EvChmod p x None :: tr)
+          | Err er => (f, mj, EvChmod p x (Some er) :: tr, Some (XOs er))
           end
       end
+  end.
+
+(* except BaseException: for old_mode in reversed(old_modes): chmod_if_possible(abspath, mode) *)
+Fixpoint restore_modes (mj : mjournal) (f : fs) (tr : list ev) : fs * list ev * option errno :=
+  match mj with
+  | [] => (f, tr, None)
+  | (p, b) :: mj' =>
+      match chmod p b f with
+      | Ok f' => restore_modes mj' f' (EvChmod p b None :: tr)
+      | Err er => (f, EvChmod p b (Some er) :: tr, Some er)
+      end
+  end.
+
+(* the fault counter after a completed rename loop: every PRename consumes exactly one call *)
+Definition k_after (ops : list pop) (k : option nat) : option nat :=
+  match k with
+  | Some n => if n <? List.length ops then None else Some (n - List.length ops)
+  | None => None
   end.
 
 (* _FileMover.rollback: for from_, to in reversed(past_renames): os.rename(to, from_) *)
@@ -233,7 +263,8 @@ Fixpoint run_del (skip : bool) (ps : list path) (k : option nat) (e : errno) (f 
   end.
 
 Record prog := {
-  g_phase : list pop;          (* removals ++ insertions *)
+  g_phase : list pop;          (* renames of the removals ++ renames of the insertions *)
+  g_chmods : list (path * bool);  (* _set_executability calls, after all renames *)
   g_deletions : list path;     (* pending_deletions, in order *)
   g_inv_new : list path;       (* versioned paths after the metadata update *)
   g_fin_files : list path;     (* limbo paths finalize deletes (FileNotFoundError ignored), in order *)
@@ -281,10 +312,28 @@ Definition run_fin (g : prog) (k : option nat) (e : errno) (f : fs) (tr : list e
 (* InventoryTreeTransform.apply / GitTreeTransform.apply.
    inv_first = true : the code as it is (metadata update, THEN apply_deletions);
    inv_first = false: the order before c37d45c (apply_deletions first). *)
+(* the whole try-block: all renames, then the executable bits; a failure among the latter puts the
+   saved modes back before the exception reaches apply's handler *)
+Definition run_try (g : prog) (flt : fault) (f0 : fs)
+  : fs * journal * bool * list ev * option exc :=
+  let e := ferr flt in
+  match run_phase (g_phase g) (kphase flt) e f0 [] false [] with
+  | (f1, j, dirty, tr1, Some x) => (f1, j, dirty, tr1, Some x)
+  | (f1, j, dirty, tr1, None) =>
+      match run_chmods (g_chmods g) (k_after (g_phase g) (kphase flt)) e f1 [] tr1 with
+      | (f2, mj, tr2, None) => (f2, j, dirty, tr2, None)
+      | (f2, mj, tr2, Some x) =>
+          match restore_modes mj f2 tr2 with
+          | (f3, tr3, None) => (f3, j, dirty, tr3, Some x)
+          | (f3, tr3, Some er) => (f3, j, dirty, tr3, Some (XOs er))
+          end
+      end
+  end.
+
 Definition run_with_fault (inv_first : bool) (g : prog) (flt : fault) (f0 : fs) (inv0 : list path)
   : outcome :=
   let e := ferr flt in
-  match run_phase (g_phase g) (kphase flt) e f0 [] false [] with
+  match run_try g flt f0 with
   | (f1, j, dirty, tr1, Some x) =>
       (* except BaseException: mover.rollback(); raise *)
       match rollback j f1 tr1 with
@@ -566,17 +615,12 @@ Lemma run_phase_dirty_sticky : forall e ops k f j tr f1 j1 d1 tr1 x,
 Proof.
   intros e. induction ops as [|op ops IH]; intros k f j tr f1 j1 d1 tr1 x H.
   - simpl in H. injection H as _ _ <- _ _. reflexivity.
-  - destruct op as [skip from to | p b]; simpl in H.
-    + destruct (tick k) as [fire k'].
-      destruct (if fire then Err e else rename from to f) as [f'|er].
-      * eapply IH. exact H.
-      * destruct (skip && is_enoent er); [eapply IH; exact H|].
-        injection H as _ _ <- _ _. reflexivity.
-    + destruct (lookup f p); [|injection H as _ _ <- _ _; reflexivity].
-      destruct (tick k) as [fire k'].
-      destruct (if fire then Err e else chmod p b f) as [f'|er].
-      * eapply IH. exact H.
-      * injection H as _ _ <- _ _. reflexivity.
+  - destruct op as [skip from to]; simpl in H.
+    destruct (tick k) as [fire k'].
+    destruct (if fire then Err e else rename from to f) as [f'|er].
+    + eapply IH. exact H.
+    + destruct (skip && is_enoent er); [eapply IH; exact H|].
+      injection H as _ _ <- _ _. reflexivity.
 Qed.
 
 Lemma run_phase_invariant : forall ops k e f j dirty tr f0 f1 j1 d1 tr1 x,
@@ -587,27 +631,168 @@ Lemma run_phase_invariant : forall ops k e f j dirty tr f0 f1 j1 d1 tr1 x,
 Proof.
   induction ops as [|op ops IH]; intros k e f j dirty tr f0 f1 j1 d1 tr1 x Hwf Hu Hrun Hd.
   - simpl in Hrun. injection Hrun as <- <- <- <- <-. auto.
-  - destruct op as [skip from to | p b]; simpl in Hrun.
-    + destruct (tick k) as [fire k'].
-      destruct (if fire then Err e else rename from to f) as [f'|er] eqn:Hr.
-      * destruct fire; [discriminate|].
-        destruct (mem f to) eqn:Hm.
-        -- (* clobbering rename: dirty *)
-           exfalso. rewrite orb_true_r in Hrun.
-           apply run_phase_dirty_sticky in Hrun. congruence.
-        -- unfold mem in Hm. destruct (lookup f to) eqn:Hl; [discriminate|].
-           destruct (rename_inverse f from to f' Hwf Hl Hr) as [Hinv Hwf'].
-           rewrite orb_false_r in Hrun.
-           eapply IH; [exact Hwf' | | exact Hrun | exact Hd].
-           simpl. exists f. split; [exact Hinv | exact Hu].
-      * destruct (skip && is_enoent er).
-        -- eapply IH; eauto.
-        -- injection Hrun as <- <- <- <- <-. auto.
-    + destruct (lookup f p) eqn:Hl.
-      * destruct (tick k) as [fire k'].
-        destruct (if fire then Err e else chmod p b f) as [f'|er].
-        -- exfalso.
-           apply run_phase_dirty_sticky in Hrun. congruence.
-        -- injection Hrun as <- <- <- <- <-. auto.
+  - destruct op as [skip from to]; simpl in Hrun.
+    destruct (tick k) as [fire k'].
+    destruct (if fire then Err e else rename from to f) as [f'|er] eqn:Hr.
+    + destruct fire; [discriminate|].
+      destruct (mem f to) eqn:Hm.
+      * (* clobbering rename: dirty *)
+        exfalso. rewrite orb_true_r in Hrun.
+        apply run_phase_dirty_sticky in Hrun. congruence.
+      * unfold mem in Hm. destruct (lookup f to) eqn:Hl; [discriminate|].
+        destruct (rename_inverse f from to f' Hwf Hl Hr) as [Hinv Hwf'].
+        rewrite orb_false_r in Hrun.
+        eapply IH; [exact Hwf' | | exact Hrun | exact Hd].
+        simpl. exists f. split; [exact Hinv | exact Hu].
+    + destruct (skip && is_enoent er).
+      * eapply IH; eauto.
       * injection Hrun as <- <- <- <- <-. auto.
+Qed.
+
+(* ---------------------------------------------------------------- mode journal invariant *)
+
+Lemma NoDup_In_lookup : forall f p n, NoDup (map fst f) -> In (p, n) f -> lookup f p = Some n.
+Proof.
+  induction f as [|[q m] f IH]; intros p n Hnd Hin; simpl in *; [contradiction|].
+  inversion Hnd as [|? ? Hnotin Hnd']; subst.
+  destruct Hin as [Hin|Hin].
+  - injection Hin as -> ->. destruct (path_eq_dec p p); [reflexivity | congruence].
+  - destruct (path_eq_dec q p) as [->|_]; [|apply IH; assumption].
+    exfalso. apply Hnotin. apply in_map_iff. exists (p, n). split; [reflexivity | exact Hin].
+Qed.
+
+Definition set_x (p : path) (c : list N) (x : bool) (f : fs) : fs :=
+  map (fun e => if path_eq_dec (fst e) p then (fst e, File c x) else e) f.
+
+Lemma set_x_keys : forall p c x f, map fst (set_x p c x f) = map fst f.
+Proof.
+  intros p c x f. unfold set_x. rewrite map_map. apply map_ext. intros [q n]. simpl.
+  destruct (path_eq_dec q p); reflexivity.
+Qed.
+
+Lemma lookup_set_x : forall p c x f q,
+  lookup (set_x p c x f) q =
+  if path_eq_dec q p then match lookup f q with Some _ => Some (File c x) | None => None end
+  else lookup f q.
+Proof.
+  intros p c x f q. induction f as [|[r n] f IH]; simpl.
+  - destruct (path_eq_dec q p); reflexivity.
+  - destruct (path_eq_dec r p) as [->|Hrp]; simpl.
+    + destruct (path_eq_dec p q) as [<-|Hpq].
+      * destruct (path_eq_dec p p); [reflexivity | congruence].
+      * rewrite IH. destruct (path_eq_dec q p); [congruence | reflexivity].
+    + destruct (path_eq_dec r q) as [<-|Hrq].
+      * destruct (path_eq_dec r p); [congruence | reflexivity].
+      * exact IH.
+Qed.
+
+(* changing the x bit of a regular file is undone exactly by setting the old bit again *)
+Lemma chmod_inverse : forall f p c b x f',
+  wf f -> lookup f p = Some (File c b) -> chmod p x f = Ok f' ->
+  chmod p b f' = Ok f /\ wf f'.
+Proof.
+  intros f p c b x f' (Hnd & Hroot & Hpar) Hl Hc.
+  unfold chmod in Hc. rewrite Hl in Hc. injection Hc as <-. fold (set_x p c x f).
+  assert (Hp : p <> []) by (intros ->; congruence).
+  split.
+  - unfold chmod. rewrite lookup_set_x. destruct (path_eq_dec p p); [|congruence]. rewrite Hl.
+    f_equal. fold (set_x p c b (set_x p c x f)). unfold set_x. rewrite map_map.
+    rewrite <- (map_id f) at 2. apply map_ext_in. intros [q n] Hin. simpl.
+    destruct (path_eq_dec q p) as [->|Hne]; simpl.
+    + destruct (path_eq_dec p p); [|congruence].
+      rewrite (NoDup_In_lookup f p n Hnd Hin) in Hl. injection Hl as ->. reflexivity.
+    + destruct (path_eq_dec q p); [congruence | reflexivity].
+  - split; [rewrite set_x_keys; exact Hnd|]. split.
+    + rewrite lookup_set_x. destruct (path_eq_dec [] p); [congruence | exact Hroot].
+    + intros q n Hin Hq.
+      assert (Hk : In q (map fst f)).
+      { rewrite <- (set_x_keys p c x f). apply in_map_iff. exists (q, n). split; [reflexivity | exact Hin]. }
+      apply in_map_iff in Hk. destruct Hk as [[q' n0] [Hq' Hin0]]. simpl in Hq'. subst q'.
+      pose proof (Hpar q n0 Hin0 Hq) as Hd.
+      rewrite lookup_set_x. destruct (path_eq_dec (parent q) p) as [E|_]; [|exact Hd].
+      rewrite E in Hd. congruence.
+Qed.
+
+Fixpoint mundoes (mj : mjournal) (f fa : fs) : Prop :=
+  match mj with
+  | [] => f = fa
+  | (p, b) :: mj' => exists f', chmod p b f = Ok f' /\ mundoes mj' f' fa
+  end.
+
+Lemma restore_undoes : forall mj f fa tr, mundoes mj f fa ->
+  exists tr', restore_modes mj f tr = (fa, tr', None).
+Proof.
+  induction mj as [|[p b] mj IH]; intros f fa tr H; simpl in *.
+  - subst. eexists; reflexivity.
+  - destruct H as [f' [Hc Hu]]. rewrite Hc. eapply IH. exact Hu.
+Qed.
+
+Lemma run_chmods_invariant : forall cs k e f mj tr fa f2 mj2 tr2 x,
+  wf f -> mundoes mj f fa ->
+  run_chmods cs k e f mj tr = (f2, mj2, tr2, x) ->
+  wf f2 /\ mundoes mj2 f2 fa.
+Proof.
+  induction cs as [|[p b] cs IH]; intros k e f mj tr fa f2 mj2 tr2 x Hwf Hu Hrun; simpl in Hrun.
+  - injection Hrun as <- <- _ _. auto.
+  - destruct (lookup f p) as [n|] eqn:Hl; [|injection Hrun as <- <- _ _; auto].
+    destruct (tick k) as [fire k'].
+    destruct (if fire then Err e else chmod p b f) as [f'|er] eqn:Hc;
+      [|injection Hrun as <- <- _ _; auto].
+    destruct fire; [discriminate|].
+    destruct n as [c b0| |t].
+    + destruct (chmod_inverse f p c b0 b f' Hwf Hl Hc) as [Hinv Hwf'].
+      eapply IH; [exact Hwf' | | exact Hrun].
+      simpl. exists f. split; [exact Hinv | exact Hu].
+    + unfold chmod in Hc. rewrite Hl in Hc. injection Hc as <-.
+      eapply IH; [exact Hwf | | exact Hrun].
+      simpl. exists f. split; [unfold chmod; rewrite Hl; reflexivity | exact Hu].
+    + unfold chmod in Hc. rewrite Hl in Hc. injection Hc as <-.
+      eapply IH; [exact Hwf | | exact Hrun].
+      simpl. exists f. split; [unfold chmod; rewrite Hl; reflexivity | exact Hu].
+Qed.
+
+Lemma run_phase_not_rollback : forall ops k e f j d tr f1 j1 d1 tr1 e0,
+  run_phase ops k e f j d tr = (f1, j1, d1, tr1, Some (XRollback e0)) -> False.
+Proof.
+  induction ops as [|op ops IH]; intros k e f j d tr f1 j1 d1 tr1 e0 H; simpl in H; [discriminate|].
+  destruct op as [skip from to].
+  destruct (tick k) as [fire k'].
+  destruct (if fire then Err e else rename from to f) as [f'|er].
+  - eapply IH; exact H.
+  - destruct (skip && is_enoent er); [eapply IH; exact H | discriminate].
+Qed.
+
+Lemma run_chmods_not_rollback : forall cs k e f mj tr f2 mj2 tr2 e0,
+  run_chmods cs k e f mj tr = (f2, mj2, tr2, Some (XRollback e0)) -> False.
+Proof.
+  induction cs as [|[p b] cs IH]; intros k e f mj tr f2 mj2 tr2 e0 H; simpl in H; [discriminate|].
+  destruct (lookup f p); [|discriminate].
+  destruct (tick k) as [fire k'].
+  destruct (if fire then Err e else chmod p b f) as [f'|er]; [eapply IH; exact H | discriminate].
+Qed.
+
+(* the invariant of the whole try-block: when it raises (and no rename replaced a target) the
+   saved modes have been put back and replaying the rename journal backwards yields f0 *)
+Lemma run_try_invariant : forall g flt f0 f1 j tr x,
+  wf f0 -> run_try g flt f0 = (f1, j, false, tr, Some x) ->
+  undoes j f1 f0 /\ forall er, x <> XRollback er.
+Proof.
+  intros g flt f0 f1 j tr x Hwf H. unfold run_try in H.
+  destruct (run_phase (g_phase g) (kphase flt) (ferr flt) f0 [] false [])
+    as [[[[fa ja] da] tra] [xa|]] eqn:Hp.
+  - injection H as <- <- -> <- <-.
+    destruct (run_phase_invariant (g_phase g) (kphase flt) (ferr flt) f0 [] false [] f0 fa ja false tra (Some xa) Hwf eq_refl Hp eq_refl) as (_ & Hu & _).
+    split; [exact Hu|].
+    intros er ->. eapply run_phase_not_rollback; exact Hp.
+  - destruct (run_chmods (g_chmods g) (k_after (g_phase g) (kphase flt)) (ferr flt) fa [] tra)
+      as [[[f2 mj] tr2] [xc|]] eqn:Hc; [|discriminate].
+    destruct (restore_modes mj f2 tr2) as [[f3 tr3] r] eqn:Hr.
+    assert (Hd : da = false) by (destruct r; injection H as _ _ -> _ _; reflexivity).
+    subst da.
+    destruct (run_phase_invariant (g_phase g) (kphase flt) (ferr flt) f0 [] false [] f0 fa ja false tra None Hwf eq_refl Hp eq_refl) as (Hwfa & Hu & _).
+    destruct (run_chmods_invariant (g_chmods g) (k_after (g_phase g) (kphase flt)) (ferr flt) fa [] tra fa f2 mj tr2 (Some xc) Hwfa eq_refl Hc) as (_ & Hmu).
+    destruct (restore_undoes _ _ _ tr2 Hmu) as [tr' Hr']. rewrite Hr' in Hr.
+    injection Hr as <- <- <-. injection H as <- <- <- <-.
+    split; [exact Hu|].
+    intros er ->. eapply run_chmods_not_rollback; exact Hc.
 Qed.
